@@ -51,15 +51,21 @@ func (ps Prices) Normalize(t *commodity.Commodity) NormalizedPrices {
 	return res
 }
 
-// normalize recursively computes prices by traversing the price graph.
+// normalize computes prices by traversing the price graph breadth-first, visiting
+// neighbors in name order: a directly declared price always wins over a chain of
+// prices, and the result does not depend on map iteration order.
 // res must already contain a price for c.
 func (ps Prices) normalize(c *commodity.Commodity, res NormalizedPrices) {
-	for neighbor, price := range ps[c] {
-		if _, done := res[neighbor]; done {
-			continue
+	queue := []*commodity.Commodity{c}
+	for len(queue) > 0 {
+		c, queue = queue[0], queue[1:]
+		for _, neighbor := range dict.SortedKeys(ps[c], commodity.Compare) {
+			if _, done := res[neighbor]; done {
+				continue
+			}
+			res[neighbor] = Multiply(ps[c][neighbor], res[c])
+			queue = append(queue, neighbor)
 		}
-		res[neighbor] = Multiply(price, res[c])
-		ps.normalize(neighbor, res)
 	}
 }
 
